@@ -131,6 +131,76 @@ CLAIMED = {
         technique="TLA+ model of the driver->TOML->worker channel checked by TLC; vectors replayed on the real CLI with per-option observables",
         design_ref="DESIGN.md §4.9, §5 C20",
     ),
+    "C04": dict(
+        text="GlyphSet.tla (names from character codes, blank glyphs for sequence-only codepoints, glyph-order merge by name, ccmp ligatures, "
+             "shaping) is model-checked for Reachable / Distinct / Skeleton over all sets of <=2 sequences of length <=3 on a 7-codepoint alphabet "
+             "(letters, hex-alphabetic, ZWJ, VS16, astral); scenarios are replayed into the real naming / fea functions and real builds in all 13 "
+             "colour formats; an independent shaper (cmap + GSUB read from the reloaded binary) decides reachability; blanks, .notdef, space and "
+             "the advance rule are read from the binary; names > 63 chars, prefix-related sequences and aspect ratios 1:4..4:1 are sampled.",
+        note="Trusted: TLC; fontTools cmap/GSUB decompilation; the shaper (longest-match ligature application as in OpenType).  One naming collision "
+             "(hex-like letters vs g_ prefix) is a recorded known finding.",
+        technique="TLA+ model of glyph-set construction and shaping checked by TLC; spec-to-code replay judged by an independent shaper on the binary",
+        design_ref="DESIGN.md §5 C04",
+    ),
+    "C07": dict(
+        text="The structural invariants are model-checked where they are decided (OTSVG.tla DocRanges/HrefsClosed/NoCrossGlyphRef/PlacedOnce, "
+             "Bitmap.tla StrikesPartition, GlyphSet.tla Skeleton, MaxColor.tla order invariants); an independent validator (full decompile, re-save, "
+             "COLR record order and references from raw bytes, SVG ranges/ids/hrefs/cross-glyph references, CBLC runs, glyph-set agreement, post "
+             "format) is applied to fonts built from model scenarios and random scenarios in all 13 formats x .ttf/.otf x keep_glyph_names and to "
+             "fonts written by maximum_color.",
+        note="Trusted: TLC; fontTools' binary readers; the validator (detects seeded mutants of each rule).",
+        technique="TLA+ invariants checked by TLC on the assembling models; spec-to-code replay with a byte-level validator",
+        design_ref="DESIGN.md §5 C07",
+    ),
+    "C10": dict(
+        text="Config.tla RoundTrip/Precedence over FontConfig._fields (B3) x provenance; every field vector (boundary floats, optional/strings, multi-"
+             "axis/master) is written by config.write and reloaded; glyphmap CSV rows over hostile file names, response-file expansion, codepoints<->"
+             "file names, glyph-name injectivity/legality (GlyphSet.tla Distinct) and parts JSON round trips are replayed against the real functions "
+             "and through a real build directory (<output>.toml / .glyphmap).",
+        note="Trusted: TLC; feaLib's lexer as the judge of legal glyph names.  A 64/65-character naming defect was repaired with a fix: commit; the g_-prefix "
+             "collision is a recorded known finding.",
+        technique="TLA+ model of the driver->file->worker channel checked by TLC; vectors replayed through the real writer/loader pairs",
+        design_ref="DESIGN.md §5 C10",
+    ),
+    "C11": dict(
+        text="Reorder.tla (coverage-indexed parallel arrays under a glyph-order permutation: sort coverage, permute every paired array, class-def and "
+             "name-keyed structures untouched) is model-checked for MeaningKept and CoverageSorted over all permutations of <=5 glyphs x pairing "
+             "shapes; template fonts containing every GSUB/GPOS lookup type and format (incl. contextual/chaining 1-3, reverse chaining, GDEF "
+             "attach/caret/mark-sets) are permuted by the real reorder_glyphs (model permutations + random), saved, reloaded; a name-keyed meaning "
+             "extraction and the raw coverage arrays are compared.",
+        note="Trusted: TLC; fontTools otTables decompilation; the template font builder (feaLib + hand-built contextual formats).",
+        technique="TLA+ model of coverage reordering checked by TLC; model permutations replayed on real fonts with name-keyed meaning extraction",
+        design_ref="DESIGN.md §5 C11",
+    ),
+    "C12": dict(
+        text="MaxColor.tla (freeze names, per-gid SVG extraction, glyphmap by gid, donor build, COLR/SVG/CBDT donation with glyph reordering, name "
+             "stripping) is model-checked for CmapKept, AdvanceKept, OriginalKept, SamePictureAllTables, NamesAsRequested; the real maximum_color is "
+             "run on nanoemoji-built COLRv0/COLRv1/picosvg/untouchedsvg fonts and third-party-style COLR fonts (arbitrary paint graphs, no space "
+             "glyph, kerning/mark lookups, several palettes) x {--bitmaps, --colr_version, --keep_glyph_names}; input and output are compared table "
+             "by table (name-keyed) and each colour table's layers per glyph by the layer oracle.",
+        note="Trusted: TLC; fontTools; the layer oracle and OT-SVG oracle.  Bitmap strikes are checked for presence/placement, not pixels.",
+        technique="TLA+ model of the maximum_color pipeline checked by TLC; differential replay of real runs with table-wise and picture-wise comparison",
+        design_ref="DESIGN.md §5 C12",
+    ),
+    "C13": dict(
+        text="ColrToSvg.tla (the recursive paint walk as a stack machine, transforms as a free monoid, reset-on-apply) is model-checked for "
+             "SamePlacement over every well-formed paint tree of depth <=3 (thorough: 4) on two transform tokens; every tree is concretised by a "
+             "third-party font builder with concrete PaintTransform/Translate/Scale*/Rotate*/Skew* paints, gradients (rotated p2, r0>0, c0!=c1), "
+             "composite glyphs, colour-glyph references, opacity groups; the real colr_to_svg output is rendered by the OT-SVG oracle and compared "
+             "with the COLR oracle's reading in the requested viewBox; currentColor / var(--colorN) and unsupported-format errors are checked.",
+        note="Trusted: TLC; the two oracles (written from the specs, mutually independent of nanoemoji).",
+        technique="TLA+ stack-machine model of the converter checked by TLC; every model tree replayed on the real converter and judged by independent oracles",
+        design_ref="DESIGN.md §5 C13",
+    ),
+    "C14": dict(
+        text="Bitmap.tla (exact-rational transcription of _ppem, _width_in_pixels, BitmapMetrics.create incl. int8 nudge, the CBDT size guard and the "
+             "strike-splitting loop; OpenType placement semantics as invariants) is model-checked on a grid of upem x vertical metrics x width mode x "
+             "bitmap height x aspect x glyph-id sets; every state is replayed into the real functions and real CBDT/sbix tables that are compiled, "
+             "reloaded and read back; image bytes must be identical; a CLI build checks the PNG pipeline end to end.",
+        note="Trusted: TLC; fontTools CBDT/CBLC/sbix readers; PIL for PNG sizes.",
+        technique="TLA+ transcription of the bitmap metric computation checked by TLC; one implementation test per model state",
+        design_ref="DESIGN.md §5 C14",
+    ),
 }
 
 NOT_YET = "check not built yet in this round; will be claimed once its TLA+ module and conformance harness exist"
